@@ -65,10 +65,17 @@ def run(tier, rep):
             p.kill()
             out, how = "", "timeout"
         if how == "exit 3":
-            # the harness's own watchdog named the input that did not terminate
-            for m in c.read_ndjson(mm):
-                rep.violation(m, "no termination within 20 s (%s, %s) on %s" % (m.get("how"), m.get("feed"), [d["text"][:80] for d in m["docs"]]))
-            continue
+            # the harness's own watchdog named an input that did not finish within 20 s while all batches ran in parallel;
+            # the batch is run again alone with a limit of 180 s per case: only an input that still does not finish is reported
+            s2, how2 = run_batch(args + ["--case-limit", 180], limit * 3)
+            if how2 == "exit 3":
+                for m in c.read_ndjson(mm):
+                    rep.violation(m, "no termination within 180 s (%s, %s) on %s" % (m.get("how"), m.get("feed"), [d["text"][:80] for d in m["docs"]]))
+                continue
+            if how2 != "ok" or not s2:
+                raise c.ToolError("hostile batch %d: the watchdog fired, the re-run alone ended with %s" % (b, how2))
+            c.log("NOTE property=C07: an input of batch %d needed more than 20 s under load and finished when the batch ran alone" % b)
+            out = json.dumps(s2)
         if how != "ok":
             # find the culprit: rerun single-stepped, logging each input before it is executed
             cur = os.path.join(c.OUT, "cases", "C07.current.%d.json" % b)
